@@ -199,6 +199,12 @@ pub mod message_frame {
         pub fn data(&'a self) -> (r: &'a [u8]) ensures r@ == self.sp_data(), { unimplemented!() }
         #[verifier::external_body]
         pub fn data_len(&self) -> (r: usize) ensures r == self.sp_data().len(), { unimplemented!() }    // unit frame: accessor obligations
+        // the whole frame (header, payload, checksum): unit frame obligations frame_data.view / frame_len.view and new.ok_frame_bytes + new.ok_payload (L + 6 bytes around L payload bytes)
+        pub uninterp spec fn sp_frame(&self) -> Seq<u8>;
+        #[verifier::external_body]
+        pub fn frame_data(&'a self) -> (r: &'a [u8]) ensures r@ == self.sp_frame(), r@.len() == self.sp_data().len() + 6, { unimplemented!() }
+        #[verifier::external_body]
+        pub fn frame_len(&self) -> (r: usize) ensures r == self.sp_data().len() + 6, { unimplemented!() }
     }
     // unit frame, obligations new.ok_number + new.ok_payload: number present iff payload has >= 2 bytes, and then it is its first 12 bits
     pub axiom fn axiom_frame_number(mf: &MessageFrame)
@@ -347,7 +353,7 @@ def build(vf, srcs):
         }''' % '\n'.join('                Message::Msg%d(dt) => msg%d::enc(*dt),' % (n, n) for n in code_nums))
     vf.emit('        impl Message {')
     # from_message_frame
-    sp = FnSpec(); sp.ret = 'res'; sp.body_props = {'C14', 'C02'}
+    sp = FnSpec(); sp.ret = 'res'; sp.body_props = {'C14', 'C02', 'C15'}
     sp.ensures = [
         ('msg.from_frame.empty_iff_short', {'C14'}, '(res is Empty) == (message_frame.sp_data().len() < 2)'),
         ('msg.from_frame.unsupported_reports_number', {'C14', 'C19'},
@@ -358,6 +364,9 @@ def build(vf, srcs):
          'number_spec(&res) is Some ==> message_frame.sp_data().len() >= 2 && number_spec(&res)->Some_0 == first12(message_frame.sp_data())'),
     ]
     sp.inserts.append(('before', 'let message_number =', 0, 'proof { crate::message_frame::axiom_frame_number(message_frame); }'))
+    # C15 ("decode can only succeed if the buffer holds every bit the count field announces"): the decoders must be handed the payload and nothing else -
+    # a parser that can also see the three checksum bytes completes a truncated list from them (seed C15d)
+    sp.inserts.append(('before', 'match message_number', 0, 'proof { assert(parser.src() == message_frame.sp_data() && parser.pos() == 12); }'))
     vgen.emit_fn(vf, exp, base + ['impl:Message', 'from_message_frame'], sp, label='Message::from_message_frame', indent='            ', keep_pub=True)
     sp = FnSpec(); sp.ret = 'res'; sp.body_props = {'C14', 'C09'}
     sp.ensures = [('msg.number.twin', {'C14', 'C09'}, 'res == number_spec(self)'),
